@@ -1,35 +1,44 @@
 (* C20 — Reported progress is a proper weighted fraction.  Property theorems only. *)
-From Coq Require Import ZArith List Bool.
+From Coq Require Import ZArith List Bool Reals Lia.
 Import ListNotations.
 Require Import V.Weights.Model V.Weights.Proofs V.Weights.FloatTie.
+Require Import V.Weights.RSum V.Weights.FloatModel V.Weights.FloatSum.
 Open Scope Z_scope.
 
-(* Weights after loading: for every number of stages n >= 1 and every assignment of given
-   (three-decimal), missing (= 0) or negative weights: non-negative, sum to one (10000
-   ten-thousandths), equal to the given ones whenever those are non-negative and sum to one, and
-   accepted unchanged by the status monitor's own re-check. *)
-Theorem C20_weights : forall given : list Z,
-  (1 <= length given)%nat -> three_decimals given ->
-  length (normalise given) = length given /\
-  Forall (fun m => 0 <= m) (normalise given) /\
-  sumZ (normalise given) = 10000 /\
-  (Forall (fun m => 0 <= m) given -> sumZ given = 10000 -> normalise given = given) /\
-  monitor_accepts (normalise given) = true.
+(* Weights after loading: for every number of stages n >= 1, every scale c >= 1 (unit 1/(1000c):
+   weights written with ANY number of decimals) and every assignment of given, missing (= 0) or
+   negative weights: non-negative, sum to one (1000c units), equal to the given ones whenever those
+   are non-negative and sum to one — and only then (otherwise the defaults) —, and accepted
+   unchanged by the status monitor's own re-check.  No hypothesis on the number of decimals
+   (the former three_decimals hypothesis is gone with the fix of F20b). *)
+Theorem C20_weights : forall (c : Z) (given : list Z),
+  1 <= c -> (1 <= length given)%nat ->
+  length (normalise c given) = length given /\
+  Forall (fun m => 0 <= m) (normalise c given) /\
+  sumZ (normalise c given) = 1000 * c /\
+  (Forall (fun m => 0 <= m) given -> sumZ given = 1000 * c -> normalise c given = given) /\
+  (~ (Forall (fun m => 0 <= m) given /\ sumZ given = 1000 * c) ->
+     normalise c given = map (Z.mul c) (repeat (1000 / Z.of_nat (length given)) (length given - 1)
+                           ++ [1000 - (Z.of_nat (length given) - 1) * (1000 / Z.of_nat (length given))])) /\
+  monitor_accepts c (normalise c given) = true.
 Proof.
-  intros given Hn H3. repeat split.
-  - exact (normalise_length given).
-  - exact (normalise_nonneg given Hn).
-  - exact (normalise_sum given Hn H3).
-  - intros Hp Hs. exact (normalise_keeps given H3 Hp Hs).
-  - exact (monitor_accepts_normalised given Hn).
+  intros c given Hc Hn. repeat split.
+  - exact (normalise_length c given).
+  - exact (normalise_nonneg c given ltac:(lia) Hn).
+  - exact (normalise_sum c given Hn).
+  - intros Hp Hs. exact (normalise_keeps c given Hp Hs).
+  - intros H. exact (normalise_changes c given Hn H).
+  - exact (monitor_accepts_normalised c given ltac:(lia) Hn).
 Qed.
 Print Assumptions C20_weights.
 
-(* Non-negativity and acceptance by the monitor hold for any decimals. *)
-Theorem C20_nonneg_any_decimals : forall given : list Z,
-  (1 <= length given)%nat ->
-  Forall (fun m => 0 <= m) (normalise given) /\ monitor_accepts (normalise given) = true.
-Proof. intros given Hn. split; [exact (normalise_nonneg given Hn)|exact (monitor_accepts_normalised given Hn)]. Qed.
+(* Non-negativity and acceptance by the monitor for any decimals (now a corollary of C20_weights). *)
+Theorem C20_nonneg_any_decimals : forall (c : Z) (given : list Z),
+  1 <= c -> (1 <= length given)%nat ->
+  Forall (fun m => 0 <= m) (normalise c given) /\ monitor_accepts c (normalise c given) = true.
+Proof.
+  intros c given Hc Hn. split; [exact (normalise_nonneg c given ltac:(lia) Hn)|exact (monitor_accepts_normalised c given ltac:(lia) Hn)].
+Qed.
 Print Assumptions C20_nonneg_any_decimals.
 
 (* The default path, explicitly: n-1 weights floor(1000/n)/1000 and the remainder on the last stage. *)
@@ -57,14 +66,64 @@ Theorem C20_float_tie :
 Proof. split; [exact tie_k_all|split; [exact tie_n_all|exact tie_q_all]]. Qed.
 Print Assumptions C20_float_tie.
 
-(* non-vacuity: a 3-stage package giving 0.2/0.3/0.5 meets every hypothesis, is kept, and a
-   7-stage package giving nothing gets 6 x 0.142 + 0.148 *)
+(* ---- The binary64 accumulation of CheckStatus (FloatModel.fprogress, IEEE-754 double,
+   round-to-nearest-even, exactly the operations of the code: 0.0, then += p*w per active stage,
+   then += w per finished stage), for ALL inputs with at most 2^20 stages:
+   active stages carry doubles (p, w) that are within one rounding (relative 2^-53) of exact
+   values (qp, qw) >= 0 -- as are a weight parsed from a decimal or computed as k/1000.0 and a progress
+   computed as len_finished/float(total) -- finished stages a double w near qw.  With
+   X = sum qp*qw + sum qw (the exact total of Model.total, X <= 2) the reported double is finite,
+   non-negative and   |reported - X| <= (n+3) * 2^-52 * X + n * 2^-1074. *)
+Theorem C20_float_progress :
+  forall (active : list (PrimFloat.float * PrimFloat.float)) (finished : list PrimFloat.float)
+         (qa : list (R * R)) (qf : list R),
+  Forall (fun pw => prog_ok (fst pw) = true /\ weight_ok (snd pw) = true) active ->
+  Forall (fun w => weight_ok w = true) finished ->
+  Forall2 (fun pw q => (0 <= fst q)%R /\ (0 <= snd q)%R /\ fnear (fst pw) (fst q) /\ fnear (snd pw) (snd q)) active qa ->
+  Forall2 (fun w q => (0 <= q)%R /\ fnear w q) finished qf ->
+  (Z.of_nat (length active + length finished) <= 1048576)%Z ->
+  (exact_prods qa + sumR qf <= 2)%R ->
+  ffin (fprogress active finished) /\ (0 <= fval (fprogress active finished))%R /\
+  (Rabs (fval (fprogress active finished) - (exact_prods qa + sumR qf))
+     <= INR (length active + length finished + 3) * (2 * u64) * (exact_prods qa + sumR qf)
+        + INR (length active + length finished) * (2 * eta64))%R.
+Proof. exact fprogress_vs_exact. Qed.
+Print Assumptions C20_float_progress.
+
+(* ... and once every stage has completed (all exact progress values 1, exact weights summing to
+   one) the reported double is within (n+3) ulp(1) = (n+3) * 2^-52 (+ n * 2^-1074) of 1.0.
+   It is NOT always exactly 1.0: ten stages of weight 0.1 give 0.9999999999999999 (see the harness). *)
+Theorem C20_float_complete :
+  forall (active : list (PrimFloat.float * PrimFloat.float)) (finished : list PrimFloat.float)
+         (qa : list (R * R)) (qf : list R),
+  Forall (fun pw => prog_ok (fst pw) = true /\ weight_ok (snd pw) = true) active ->
+  Forall (fun w => weight_ok w = true) finished ->
+  Forall2 (fun pw q => (0 <= fst q)%R /\ (0 <= snd q)%R /\ fnear (fst pw) (fst q) /\ fnear (snd pw) (snd q)) active qa ->
+  Forall2 (fun w q => (0 <= q)%R /\ fnear w q) finished qf ->
+  (Z.of_nat (length active + length finished) <= 1048576)%Z ->
+  Forall (fun q => fst q = 1%R) qa -> (sumR (map snd qa) + sumR qf = 1)%R ->
+  (Rabs (fval (fprogress active finished) - 1)
+     <= INR (length active + length finished + 3) * (2 * u64)
+        + INR (length active + length finished) * (2 * eta64))%R.
+Proof. exact fprogress_complete. Qed.
+Print Assumptions C20_float_complete.
+
+(* the constants, and: a correctly rounded normal number is "near" its exact value, so the
+   hypotheses fnear are met by every weight/progress the code computes by one rounding *)
+Theorem C20_float_constants :
+  (2 * u64 = / 4503599627370496)%R /\ (2 * eta64 = Raux.bpow Zaux.radix2 (-1074))%R /\
+  (forall q : R, (Raux.bpow Zaux.radix2 (-1022) <= q)%R -> near u64 (rnd64 q) q) /\ near u64 (rnd64 0) 0.
+Proof. destruct consts64 as [A B]. split; [exact A|]. split; [exact B|]. split; [exact near_rnd64|exact near_rnd64_0]. Qed.
+Print Assumptions C20_float_constants.
+
+(* non-vacuity: a 3-stage package giving 0.2/0.3/0.5 meets every hypothesis, is kept, a
+   7-stage package giving nothing gets 6 x 0.142 + 0.148, four- and ten-decimal weights summing to one
+   are kept; the float theorems' hypotheses are met by FloatSum.float_nonvacuous *)
 Example C20_nonvacuous :
-  three_decimals [2000; 3000; 5000] /\ normalise [2000; 3000; 5000] = [2000; 3000; 5000] /\
-  normalise [0;0;0;0;0;0;0] = [1420;1420;1420;1420;1420;1420;1480] /\
-  normalise [15000; -5000] = [5000; 5000] /\
+  normalise 10 [2000; 3000; 5000] = [2000; 3000; 5000] /\
+  normalise 10 [0;0;0;0;0;0;0] = [1420;1420;1420;1420;1420;1420;1480] /\
+  normalise 10 [15000; -5000] = [5000; 5000] /\
+  normalise 10 [3333; 6667] = [3333; 6667] /\ normalise 10 [3335; 6675] = [5000; 5000] /\
+  normalise 10000000 [3333333333; 6666666667] = [3333333333; 6666666667] /\
   total [2000; 3000; 5000] [4;2;0] = 14000.
-Proof.
-  repeat split; try reflexivity.
-  repeat constructor; [exists 200|exists 300|exists 500]; reflexivity.
-Qed.
+Proof. repeat split; reflexivity. Qed.
